@@ -501,12 +501,13 @@ they are listed in §8 with the property whose check found them.
   stricter than the implementation on damaged input (counted in the evidence, as for C03). The section
   counting of `IncompleteTransfer::append` (section-number / section-offset of the `received` state) is not
   modelled. `Amqp.Dispose` starts after the sort and the filter of `dispose_all` (the runs apply both).
-* The reassembly model is about a link that is attached once and about posts outside transactions. The two
-  seeded changes of the fifth round that lay beyond that — an aborted transfer in the middle of a transactional
-  multi-frame post (the listener's `TxnSession` keeps the earlier frames and replays them at commit), and a
-  delivery sent again with `resume = true` after a detach-and-resume whose last frame omits the delivery-tag
-  (`on_resuming_transfer`) — were first missed and are caught by runs only (an aborted attempt before a post
-  in `txn`, a resumed delivery in `reasm`); neither path has a Lean model yet.
+* Two seeded changes of the fifth round lay beyond the reassembly model as it was: an aborted transfer in the
+  middle of a transactional multi-frame post (the listener's `TxnSession` keeps the earlier frames and replays
+  them at commit) — caught by runs only (an aborted attempt before a post in `txn`), that path has no Lean model
+  yet — and a delivery sent again with `resume = true` after a detach-and-resume whose last frame omits the
+  delivery-tag. The second path is modelled since (`Amqp.Reasm.stepR`, the arms of `on_resuming_transfer`
+  regenerated as `source_resume_shape`, theorems `resume_flag_immaterial`, `reasm_once_resumed`,
+  `resumed_other_delivery`); what the resuming attach exchanges (the unsettled maps) is not.
 * The typed layer models the 32 list-encoded composites, the unions built from them, and messages
   (`Amqp/Message.lean`: sections in the order of the standard, the three body kinds, batches of data
   and amqp-sequence sections; `message_roundtrip`). `Body::Empty` is not a body of the AMQP type
